@@ -3605,12 +3605,14 @@ class Assemble(Array):
         advanced_ndim = builtins.sum(index.ndim for index in self.indices if not isinstance(index, Range))
         compiled_indices = []
         trans = [] # axes of func corresponding to advanced indices
+        range_axes = [] # axes of func corresponding to ranges
         i = 0
         for index in self.indices:
             j = i + index.ndim
             if isinstance(index, Range):
                 n = builder.compile(index.shape[0])
                 compiled_index = _pyast.Variable('slice').call(n)
+                range_axes.append(i)
             else:
                 prefix = len(trans)
                 trans.extend(range(i, j))
@@ -3623,9 +3625,10 @@ class Assemble(Array):
         assert i == self.func.ndim
         assert len(trans) == advanced_ndim
         compiled_func = builder.compile(self.func)
-        if advanced_ndim > 1 and trans[-1] - trans[0] != advanced_ndim - 1: # trans is noncontiguous
+        advanced = [k for k, index in enumerate(self.indices) if not isinstance(index, Range)]
+        if len(advanced) > 1 and advanced[-1] - advanced[0] != len(advanced) - 1: # advanced indices, including scalars, are separated by a slice
             # see https://numpy.org/doc/stable/user/basics.indexing.html#combining-advanced-and-basic-indexing
-            trans.extend(i for i, index in enumerate(self.indices) if isinstance(index, Range))
+            trans.extend(range_axes)
             compiled_func = compiled_func.get_attr('transpose').call(*[_pyast.LiteralInt(i) for i in trans])
         builder.get_block_for_evaluable(self).array_add_at(out, _pyast.Tuple(tuple(compiled_indices)), compiled_func)
 
